@@ -1,6 +1,7 @@
 """Fixture classes for the type universe U (DESIGN 3).  Importable in both worlds."""
 
 import dataclasses
+import decimal
 import datetime
 import enum
 import typing as t
@@ -341,3 +342,40 @@ class InitOnly:
 
 class TaggedUUID(uuid.UUID):
     pass
+
+
+class Gain(enum.IntEnum):  # a member whose value is falsy
+    MUTE = 0
+    LOW = 1
+
+
+class Perm(enum.Flag):
+    R = 4
+    W = 2
+    X = 1
+
+
+class Mode(enum.IntFlag):
+    READ = 1
+    WRITE = 2
+
+
+@dataclasses.dataclass
+class Job:  # optional members whose declared default is not None
+    name: str
+    retries: t.Optional[int] = 3
+    tags: t.Optional[list[str]] = dataclasses.field(default_factory=list)
+
+
+class TDOpt(t.TypedDict, total=False):  # non-required keys that may hold None
+    a: t.Optional[int]
+    b: t.Optional[str]
+
+
+class TDTree(t.TypedDict, total=False):  # refers back to itself by a bare (not Optional, not container) field
+    weight: decimal.Decimal
+    left: "TDTree"
+    right: "TDTree"
+
+
+UnionRec = t.TypeAliasType("UnionRec", "t.Union[list[UnionRec], int]")
